@@ -126,6 +126,7 @@ var gfmSubsets = []string{"-", "s", "t", "T", "l", "st", "sT", "sl", "tT", "tl",
 func gfmModelCases(c *Ctx, items []docItem, max int) {
 	seen := map[string]bool{}
 	n := 0
+	items = roundRobin(items)
 	for i, it := range items {
 		if n >= max {
 			break
